@@ -316,13 +316,17 @@ def graph_leg(name, module, tier_env, to_events, what, workers=8, mc_module=None
             % (name, summ['total'], summ['accepted'], summ['anomalies'], time.time() - t0))
         env['GRAPH_FILE'] = gfile
         states = trans = 0
-        if mc_module:
-            r0 = run_mc(mc_module, scratch, workers=workers, env=env)
-            states += r0['distinct']
-            trans += r0['generated']
         mod = os.path.join(SPEC, 'mc', module + '.tla')
         cfg = os.path.join(SPEC, 'mc', module + '.cfg')
-        r = tlc(mod, cfg, scratch, env=env, workers=workers, heap='12g', timeout=7200, gcthreads=4)
+        # the spec-only laws (mc_module) and the graph comparison enumerate the same domain: run them side by side
+        with cf.ThreadPoolExecutor(max_workers=2) as ex:
+            f0 = ex.submit(run_mc, mc_module, scratch, workers, 7200, (), env) if mc_module else None
+            f1 = ex.submit(tlc, mod, cfg, scratch, env, workers, '12g', 7200, (), None, 4)
+            r = f1.result()
+            if f0:
+                r0 = f0.result()
+                states += r0['distinct']
+                trans += r0['generated']
         if r['rc'] != 0 or 'No error has been found' not in r['out']:
             raise HarnessError('graph check %s did not complete:\n%s' % (module, tail(r['out'], 50)))
         if r['distinct'] != summ['total']:
